@@ -34,7 +34,7 @@ D(x) == ToString(x)
 Has(e, f) == f \in DOMAIN e
 
 StartPos == Decode([r |-> <<261944453, 67977560, 0, 0, 0, 0, 475842920, 669809813>>, stm |-> 0, cr |-> 15, ep |-> 0])
-NoGo == [active |-> FALSE]
+NoGo == [active |-> FALSE, toks |-> <<>>]
 Fresh == [pos |-> StartPos, hist |-> <<StartPos>>, go |-> NoGo, ready |-> FALSE, eof |-> FALSE, quit |-> FALSE, tend |-> 0, dead |-> FALSE, cmd |-> "startpos", skip |-> FALSE, base |-> <<StartPos>>]
 
 RECURSIVE Play(_, _, _)
@@ -82,7 +82,7 @@ InStep(e) ==
        ELSE [sc EXCEPT !.pos = h[Len(h)], !.hist = h, !.base = h, !.cmd = e.line, !.skip = FALSE]
   ELSE IF Has(e, "go")
   THEN LET legal == Legal(sc.pos) IN
-       [sc EXCEPT !.go = [active |-> TRUE, t |-> e.t, line |-> e.line,
+       [sc EXCEPT !.go = [active |-> TRUE, t |-> e.t, line |-> e.line, toks |-> IF Has(e, "nocontract") THEN <<>> ELSE e.toks,
                           slice |-> IF sc.pos.stm = 0 THEN e.slice_w ELSE e.slice_b,
                           legal |-> legal, infos |-> <<>>, answers |-> 0, foreign |-> 0,
                           probe |-> IF Has(e, "probe") THEN e.probe ELSE "", timed |-> Has(e, "timed") /\ e.timed,
@@ -246,8 +246,15 @@ RecordMatches(h, tbl) ==
 
 HkFails(e) ==
   CASE e.h = "go_start" ->
-         IF s.skip \/ ~Has(e, "table") THEN {}
-         ELSE IF ~RecordMatches(s.base, e.table) THEN {<<"C10", "record-at-go", D(<<s.cmd, [j \in 1..Len(e.table) |-> e.table[j][2]]>>)>>} ELSE {}
+         (IF s.skip \/ ~Has(e, "table") THEN {}
+          ELSE IF ~RecordMatches(s.base, e.table) THEN {<<"C10", "record-at-go", D(<<s.cmd, [j \in 1..Len(e.table) |-> e.table[j][2]]>>)>>} ELSE {})
+         \* C09 inside the real command loop: the slice planned for THIS go (logged at GoAccept, placed right behind its go
+         \* line) obeys the contract for the tokens of this go line alone and for the side to move of the board that is
+         \* searched - whatever earlier go commands carried
+         \cup (IF ~Has(e, "slice") \/ ~s.go.active \/ s.go.toks = <<>> THEN {}
+               ELSE LET tc == ParseGo(s.go.toks)  stm == e.board.stm IN
+                    IF ~SliceOK(MoverClock(tc, stm), MoverInc(tc, stm), Mtg(tc), e.slice)
+                    THEN {<<"C09", "slice-at-go", D(<<s.go.line, stm, e.slice>>)>>} ELSE {})
     [] e.h = "srch_send" ->
          \* a send after the polling loop was left (or by the previous go's thread, whose channel is gone) is the benign
          \* race named SrchSendAfterClose in the design: it reaches nobody
